@@ -266,7 +266,7 @@ def classify_case(line, m, g):
 def gen_cases(ctx):
     rng = ctx.rng
     decl = mg.declared_types()
-    rand_types = mg.usable_types([mg.gen_type(rng, 3) for _ in range(ctx.scale(120, 1500))])
+    rand_types = mg.usable_types([mg.gen_type(rng, 3) for _ in range(ctx.scale(120, 1500))] + mg.embed_chains(rng, ctx.scale(24, 200)))
     cases = []
     for t in mg.SCALAR_TYPES:
         if t[0] == "int":
